@@ -211,6 +211,10 @@ def _collect(env):
     if sim is not None:
         cur, sim.cur = sim.cur, None      # mute the step clock: finalisers are not client steps
     try:
+        if env.kept:
+            # the exceptions of abandoned calls are dropped now: their suspended generators are finalised here
+            env.count('abandoned_calls_finalised_late', len(env.kept))
+            del env.kept[:]
         gc.collect()
     finally:
         if sim is not None:
@@ -267,6 +271,7 @@ class Env:
         self.shared_texts = {}           # value -> the one text object all clients pass for it
         self.instr = False               # instruction-level pre-emption points enabled in this run
         self.active_compiles = 0         # Grammar() calls in progress (all clients, nested ones included)
+        self.kept = []                   # exceptions of abandoned calls that their callers hold on to
         self.built_sources = {}          # mod id -> source generated by a construction of this run (include_source)
 
     def count(self, k, n=1):
@@ -381,7 +386,11 @@ def entry_fn(module, entry):
     return obj.parse
 
 
-def _outcome_of_call(fn, text, pos, full):
+def _outcome_of_call(fn, text, pos, full, keep=None):
+    """keep: a list -- the caller of the abandoned call HOLDS ON to the exception (`last_error = e`): the traceback keeps
+    the driver's frame and with it every suspended rule generator of the abandoned call alive; they are finalised
+    (GeneratorExit, `finally:` blocks) only when the exception is dropped -- at a later `gc` event, possibly in the
+    middle of another call."""
     try:
         with locks.sut():
             v = fn(text, pos, full) if pos is not None else fn(text)
@@ -391,8 +400,12 @@ def _outcome_of_call(fn, text, pos, full):
     except locks.Deadlock:
         return {'err': 'deadlock'}, None
     except UserAbort as e:
+        if keep is not None:
+            keep.append(e)
         return {'abort': [e.tag, e.pos]}, None
     except UserAbortBase as e:
+        if keep is not None:
+            keep.append(e)
         return {'abort': [e.tag, e.pos], 'base': True}, None
     except MemoryError:
         return {'err': 'MemoryError'}, None
@@ -430,7 +443,10 @@ def run_op(env, ctx, op, path=()):
                 out, raw = {'err': 'entry:' + type(e).__name__}, None
             else:
                 text = _text_object(env, task, op, ctx)
-                out, raw = _outcome_of_call(fn, text, op.get('pos', 0), op.get('full', True))
+                out, raw = _outcome_of_call(fn, text, op.get('pos', 0), op.get('full', True),
+                                            keep=env.kept if op.get('keep_exc') else None)
+                if op.get('keep_exc') and 'abort' in out:
+                    env.count('abandoned_call_kept_alive_by_its_exception')
                 del text
         except mon.StepBudget:
             out, raw = {'err': 'nontermination'}, None
@@ -940,5 +956,5 @@ def strip_nests(op):
 
 def op_key(op):
     o = {k: v for k, v in strip_nests(op).items()
-         if k not in ('budget', 'textobj', 'keep_text') and not k.startswith('_')}
+         if k not in ('budget', 'textobj', 'keep_text', 'keep_exc') and not k.startswith('_')}
     return json.dumps(o, sort_keys=True)
